@@ -405,16 +405,18 @@ pub fn run(ctx: &Ctx) {
     ctx.run_sub("word_ops_prepared_operands", t.pick(480, 6_000), 16, || word_strategy(0.0, BES3), word_test);
     ctx.run_sub("word_ops_and_programs_via_bootstrapping", t.pick(48, 600), 16, || word_strategy(1.0, BES3), word_test);
     ctx.run_sub("bit_surgery", t.pick(192, 2_400), 16, || bit_strategy(BES3), bit_test);
+    crate::c15b::run_all(ctx);
 }
 
 pub fn replay(ctx: &Ctx, sub: &str, case: &serde_json::Value) -> i32 {
     match sub {
         "bit_surgery" => ctx.replay_case::<BitCase, _>(sub, case, bit_test),
+        "swap_selection_retrieval_bootstrapping_cells" => crate::c15b::replay(ctx, sub, case),
         _ => ctx.replay_case::<WordCase, _>(sub, case, word_test),
     }
 }
 
-pub const RULE: &str = "cases = (backend in FFT64Ref/FFT64Avx/NTT120Ref, word op in add/sub/sll/srl/sra/slt/sltu/and/or/xor/identity, operands from boundary classes (0, 1, 2^31, 2^32-1, alternating patterns, single bits, shift amounts 0..63) and random, operands either encrypted directly as prepared GGSW bits or encrypted as packed FheUint and prepared through circuit bootstrapping, chains of 1..3 operations with re-preparation of the result, a third of the cases through the *_multi_thread entry points with 3/5/6/7/11 threads); bit surgery: sext(byte 0..2), splice_u8/u16 at every (dst, src), get_bit_glwe at every index, zero_byte, partial preparation fhe_uint_prepare_custom at every (start, count). Oracle: plain Rust u32 result after decryption with the clear key. non-trivial = op != identity with both operands != 0, or program length >= 2.";
+pub const RULE: &str = "cases = (backend in FFT64Ref/FFT64Avx/NTT120Ref, word op in add/sub/sll/srl/sra/slt/sltu/and/or/xor/identity, operands from boundary classes (0, 1, 2^31, 2^32-1, alternating patterns, single bits, shift amounts 0..63) and random, operands either encrypted directly as prepared GGSW bits or encrypted as packed FheUint and prepared through circuit bootstrapping, chains of 1..3 operations with re-preparation of the result, a third of the cases through the *_multi_thread entry points with 3/5/6/7/11 threads); bit surgery: sext(byte 0..2), splice_u8/u16 at every (dst, src), get_bit_glwe at every index, zero_byte, partial preparation fhe_uint_prepare_custom at every (start, count). Oracle: plain Rust u32 result after decryption with the clear key. non-trivial = op != identity with both operands != 0, or program length >= 2. Sub-check swap_selection_retrieval_bootstrapping_cells: cswap of two words (selector GGSW in the radix of the words or in radix 12 / 9), glwe_blind_selection over generated slot subsets, glwe_blind_retrieval_statefull and its inverse on 2^bits..2^bits+2 words, GLWE blind rotation (both forms) and the three GGSW blind rotations by sign * (((k >> rsh) % 2^mask) << lsh), circuit bootstrapping to constant and to exponent (domain 2^1..2^4, every log_gap_out <= log_gap_in); oracle = u32 / index semantics after decryption, negacyclic rotation of the encrypted polynomial, and for every GGSW cell the exact phase under the clear secret (regenerated from the fixed seed of TestContext) minus value * gadget (* s_col) below half a unit of the row's gadget level (one unit for the last row of bootstrapped GGSWs, whose noise reaches 0.49 units on the shipped layout).";
 
 pub fn ctx_infos() -> (usize, usize) {
     let c = &*CTX_FFT_REF;
